@@ -9,7 +9,7 @@ open Lean Drive
 namespace Drive
 
 /-- exact rational value of an IEEE-754 binary64 bit pattern (finite values only) -/
-def ratOfBits (b : Nat) : Rat :=
+private def ratOfBits (b : Nat) : Rat :=
   let sign : Int := if (b / 2^63) % 2 == 1 then -1 else 1
   let e : Nat := (b / 2^52) % 2048
   let m : Nat := b % 2^52
@@ -18,21 +18,21 @@ def ratOfBits (b : Nat) : Rat :=
     let mant : Int := sign * Int.ofNat (m + 2^52)
     if e ≥ 1075 then (mant : Rat) * (2:Rat) ^ (e - 1075) else (mant : Rat) / (2:Rat) ^ (1075 - e)
 
-def isFiniteBits (b : Nat) : Bool := (b / 2^52) % 2048 != 2047
+private def isFiniteBits (b : Nat) : Bool := (b / 2^52) % 2048 != 2047
 
-def getRats (j : Json) (k : String) : Except String (Array Rat) := do
+private def getRats (j : Json) (k : String) : Except String (Array Rat) := do
   let a ← getNats j k
   if a.all isFiniteBits then return a.map ratOfBits else throw s!"non-finite double in {k}"
 
-def getRat (j : Json) (k : String) : Except String Rat := do
+private def getRat (j : Json) (k : String) : Except String Rat := do
   let b ← getNat j k
   if isFiniteBits b then return ratOfBits b else throw s!"non-finite double in {k}"
 
-def jRat (q : Rat) : Json := Json.str (toString q)
-def jRats (a : List Rat) : Json := Json.arr (a.map jRat).toArray
+private def jRat (q : Rat) : Json := Json.str (toString q)
+private def jRats (a : List Rat) : Json := Json.arr (a.map jRat).toArray
 
 /-- parse "p/q" or "p" -/
-def parseRat (s : String) : Except String Rat :=
+private def parseRat (s : String) : Except String Rat :=
   match s.splitOn "/" with
   | [p] => match p.toInt? with
     | some a => .ok (a : Rat)
@@ -42,11 +42,11 @@ def parseRat (s : String) : Except String Rat :=
     | _, _ => .error s!"bad rational {s}"
   | _ => .error s!"bad rational {s}"
 
-def getRatStrs (j : Json) (k : String) : Except String (Array Rat) := do
+private def getRatStrs (j : Json) (k : String) : Except String (Array Rat) := do
   let a ← j.getObjValAs? (Array String) k
   a.mapM parseRat
 
-def vecOf (a : Array Rat) (n : Nat) : Vector Rat n := Vector.ofFn fun i => a.getD i.val 0
+private def vecOf (a : Array Rat) (n : Nat) : Vector Rat n := Vector.ofFn fun i => a.getD i.val 0
 
 def mkKIn (j : Json) : Except String (Σ n k, Kernel.KIn n k Rat) := do
   let n ← getNat j "n"; let k ← getNat j "k"
